@@ -139,9 +139,10 @@ var propRules = map[string]*PropSpec{
 		Technique:  "static analysis: constant folding (go/constant), truth tables over normalised branch conditions, affine expression comparison",
 	},
 	"C07": {
-		Rules:       []string{"A1.kernel", "A6.kernel", "A2.32", "A3.32", "A2.64", "A3.64", "A1.api32", "A1.api64", "A1.slices", "F9", "F5", "A7", "A9", "IDX1", "A2.stale", "A4.clear", "A1.bsi", "R3"},
+		Rules:       []string{"A1.kernel", "A6.kernel", "A2.32", "A3.32", "A2.64", "A3.64", "A1.api32", "A1.api64", "A1.slices", "F9", "F5", "A7", "A9", "IDX1", "A2.stale", "A4.clear", "A1.bsi", "R3", "R4"},
 		Explanation: explBase + " C07 (strongest claim): a container reachable from two tables is flagged in both before either writes; every payload write goes through an owned container; every slot store is an owned store, a flagged move or a certified clone-or-share hand-off; aggregates return independent bitmaps; read-only functions change neither bitmaps nor the caller's slice.",
 		Decided: []string{
+			"no table is given an array (keys, containers, flags) of another table: clones and results own their three arrays",
 			"write gate: every call that may write a container's payload has an owned receiver (32-bit containers and 64-bit buckets)",
 			"hand-off: every slot store (API and raw, ~140 sites) stores owned / moves with its flag / shares with destination flag true and source flag ensured",
 			"kernels return fresh results and never write or return their operand",
@@ -271,9 +272,10 @@ var propRules = map[string]*PropSpec{
 		Technique:  techMix,
 	},
 	"C17": {
-		Rules:       []string{"A2.64", "A3.64", "F3.64", "F5", "F9", "A1.api64", "A5", "F12", "P6", "P2", "U1", "F10", "EQ1", "R2", "IDX1", "A2.stale", "LEN1", "F5.neg", "R3", "U5", "CUR1", "CUR2", "CUR3", "CUR4", "GAL1", "CACHE1", "CUR5", "SW1", "LOW1", "U11", "U12", "IX0", "CUR6"},
+		Rules:       []string{"A2.64", "A3.64", "F3.64", "F5", "F9", "A1.api64", "A5", "F12", "P6", "P2", "U1", "F10", "EQ1", "R2", "IDX1", "A2.stale", "LEN1", "F5.neg", "R3", "U5", "CUR1", "CUR2", "CUR3", "CUR4", "GAL1", "CACHE1", "CUR5", "SW1", "LOW1", "U11", "U12", "IX0", "CUR6", "R4"},
 		Explanation: explBase + " C17: the 64-bit bitmap's bucket table obeys the same ownership discipline (bucket = container), drops emptied buckets, inserts at the right index and its aggregates return fresh bitmaps.",
 		Decided: []string{
+			"no table is given an array (keys, containers, flags) of another table: clones and results own their three arrays",
 			"a cursor method that steps the chunk position reloads the cursor before the key field is read again (in particular in the condition of the loop that does the stepping)",
 			"exported functions read a fixed position of a caller's slice (the first value of AddMany, the first bitmap of an aggregate) only behind a test of its length",
 			"in the 64-bit bitmap a 64-bit quantity is cut to 32 bits only if it is a widened / shifted / masked 32-bit value or an upper-bound comparison on it dominates the cut (Select's running index against the bucket cardinality)",
